@@ -56,10 +56,12 @@ var (
 	hostileMethods = []string{"", "GET", "get", "G ET", "\x00", "OPTIONS", "TRACE", "HEAD", "CONNECT", "PRI", strings.Repeat("M", 5000), "*"}
 	hostilePaths   = []string{"", "*", "/", "//", "/%", "/{x}", "/a\x00b", "\xff\xfe", "/\xc3\x28", strings.Repeat("/a", 35000), "a", "**", " ", "/*", "*/"}
 	hostileHosts   = []string{"", "a.com", "A.COM:80", "[::1]:80", "a:b:c", "[", "]:", ":", "a.com:", "a.com:x", ":80", "[]", "[a.com]", "x.a.com", "7.b.com:8080", "\xff", "[", "]", "[[::1]]", "a.com:65536000000000000000"}
-	hostileAccept  = []string{"", "text/html", "application/json; version=v1", ";", "a/b; version", "\xff", "a/b;version=\"v2\"", "a/b; VERSION=v1", strings.Repeat("a/b;", 3000), "a/b; version=v1; version=v2"}
-	domains        = []string{"a.com", "{sub}.a.com", `{sub:\d+}.b.com`, "b.com", "c.com", "d.com", "e.com", "f.com", "{-s}.c.com", "A.com", "{sub:[}.x"}
-	patAlphabet    = []string{"{", "}", ":", "-", "/", "a", "b", `\d+`, "[", "]", "(", ")", "*", ".", "x", "{x}", "{y:\\d+}", "{-z}", "{x:", "}{"}
-	faults         = []string{"{}", "{:r}", "}{", "{x}{y}", "{x:[}", "{a}/{a}", "{-}", "{x", "{x:(}", "}", "{", "{{x}}", "{x:}", "{:}", "{-:}", strings.Repeat("s", 33000)}
+	hostileAccept  = []string{"", "text/html", "application/json; version=v1", ";", "a/b; version", "\xff", "a/b;version=\"v2\"", "a/b; VERSION=v1", strings.Repeat("a/b;", 3000), "a/b; version=v1; version=v2",
+		// quoting at its edges: a lone quote as a value, a quoted semicolon, an empty quoted value, a dangling escape
+		"a/b; version=\"", "a/b; version=\";\"", "a/b; charset=\"; version=v1", "a/b; version=\"\"", "a/b; version=\"\\", "\"", "a/b; =", "a/b; version=;", "/; version=v1"}
+	domains     = []string{"a.com", "{sub}.a.com", `{sub:\d+}.b.com`, "b.com", "c.com", "d.com", "e.com", "f.com", "{-s}.c.com", "A.com", "{sub:[}.x"}
+	patAlphabet = []string{"{", "}", ":", "-", "/", "a", "b", `\d+`, "[", "]", "(", ")", "*", ".", "x", "{x}", "{y:\\d+}", "{-z}", "{x:", "}{"}
+	faults      = []string{"{}", "{:r}", "}{", "{x}{y}", "{x:[}", "{a}/{a}", "{-}", "{x", "{x:(}", "}", "{", "{{x}}", "{x:}", "{:}", "{-:}", strings.Repeat("s", 33000)}
 )
 
 func hostile(t *rapid.T, label string, pool []string) string {
